@@ -344,4 +344,25 @@ theorem report_parse_meta_agree (env : Env) (input : Str) (h : parseFrontmatter 
   unfold traceOf at this
   rw [this]
 
+/-- the parse-stage metadata diagnostics carried by an event list are a function of its trace -/
+theorem trace_parse_meta (l : List (Ev α)) :
+    ((l.filter Ev.isTrace).filterMap isDiagEv).filter Diag.isParseMeta =
+      (l.filterMap isDiagEv).filter Diag.isParseMeta := by
+  apply filterMap_filter_of_imp
+  intro ev d hd hq
+  unfold Diag.isParseMeta at hq
+  simp only [Bool.and_eq_true] at hq
+  cases ev <;> simp only [isDiagEv, Option.some.injEq] at hd <;> first | (subst hd; exact hq.2) | cases hd
+
+/-- **events**: without front matter the error/warning events about metadata lines of the full pull
+    parser carry exactly the diagnostics of those of the metadata-only pull parser, in order -/
+theorem events_parse_meta_agree (cs : CharSpec) (ext : Ext) (input : List Char)
+    (h : parseFrontmatter cs input = none) :
+    ((pullEvents (α := α) cs ext input).1.toList.filterMap isDiagEv).filter Diag.isParseMeta =
+    ((pullMetaEvents (α := α) cs ext input).1.toList.filterMap isDiagEv).filter Diag.isParseMeta := by
+  rw [← trace_parse_meta, ← trace_parse_meta (pullMetaEvents (α := α) cs ext input).1.toList]
+  have := metadata_trace_agree (α := α) cs ext input h
+  unfold traceOf at this
+  rw [this]
+
 end Cook
